@@ -140,6 +140,69 @@ struct Acc {
     violations: Vec<Violation>,
 }
 
+/// Operands and arm values *built* from run-time components (a container literal that mentions a
+/// parameter is not a constant: the comparison meets an expression, not a folded value): every
+/// built shape x every scrutinee, in a match value arm (bare and parenthesised) and on either
+/// side of == / !=; expected = content equality with the shape evaluated on its own.
+fn built_operands() -> (u64, Vec<Violation>) {
+    const SHAPES: &[&str] = &[
+        "(x, 2)", "(x, 2, 3)", "(2, x)", "((x, 2), 3)", "((x, 2, 3), 3)", "(x, (2, 3))", "(x, (2, 3, 4))", "(x, [2])", "(x, [2, 3])",
+        "[x, 2]", "[x, 2, 3]", "[x]", "[[x], [2]]", "[[x, 2]]", "[(x, 2)]", "[(x, 2, 3)]",
+        "struct{ a := x }", "struct{ a := x, b := 2 }", "struct{ b := x }", "struct{ a := (x, 2) }", "struct{ a := (x, 2, 3) }",
+        "(x * 2, 2)", "[x, 2.5]",
+    ];
+    let interp = Interpreter::with_stdlib();
+    // scrutinees: every shape at x = 1 and x = 7, built elsewhere, plus a few plain values
+    let mut scrut_src: Vec<String> = Vec::new();
+    for s in SHAPES {
+        for x in ["1", "7"] {
+            scrut_src.push(format!("x := {x}; {s}"));
+        }
+    }
+    scrut_src.extend(["1", "()", "[]", "(1, 2.0)", "[1.0, 2]", "\"(1, 2)\""].iter().map(|s| s.to_string()));
+    let scrut: Vec<Variable> = scrut_src.iter().map(|s| eval(&interp, s).expect("C19 scrutinee")).collect();
+    let mut out = Vec::new();
+    let mut n = 0u64;
+    for shape in SHAPES {
+        let own = eval(&interp, &format!("x := 1; {shape}")).expect("C19 shape");
+        let bare_ok = shape.starts_with('(');
+        let mut forms: Vec<(&str, String)> = vec![
+            ("match-arm", format!("f := (t: any, x: int) -> any {{ return match t {{ ({shape}) => true, => false, }} }}")),
+            ("match-arm-after-another", format!("f := (t: any, x: int) -> any {{ return match t {{ (\"no\") => false, ({shape}) => true, => false, }} }}")),
+            ("eq-left", format!("f := (t: any, x: int) -> any {{ return {shape} == t }}")),
+            ("eq-right", format!("f := (t: any, x: int) -> any {{ return t == {shape} }}")),
+            ("ne-right", format!("f := (t: any, x: int) -> any {{ return !(t != {shape}) }}")),
+        ];
+        if bare_ok {
+            forms.push(("match-arm-bare", format!("f := (t: any, x: int) -> any {{ return match t {{ {shape} => true, => false, }} }}")));
+        }
+        for (form, text) in forms {
+            let f = match eval(&interp, &text) {
+                Ok(Variable::Function(f)) => f,
+                other => {
+                    out.push(Violation { sig: format!("C19|built-operands|program-fails|{form}|{shape}"), detail: json!({"kind": "program", "stdlib": true, "text": text, "observed": format!("{:?}", other.map(|v| canon(&v)))}) });
+                    continue;
+                }
+            };
+            for (k, t) in scrut.iter().enumerate() {
+                n += 1;
+                let want = content_eq(t, &own).to_string();
+                let got = match call(&f, vec![t.clone(), Variable::Int(1)]) {
+                    Ok(v) => canon(&v),
+                    Err(e) => e,
+                };
+                if got != want {
+                    out.push(Violation {
+                        sig: format!("C19|built-operands|{form}|shape={shape}|scrutinee={}", scrut_src[k]),
+                        detail: json!({"kind": "host_call", "program": text, "args": [format!("({})", if scrut_src[k].contains(";") { format!("{{ {} }}", scrut_src[k]) } else { scrut_src[k].clone() }), "1".to_string()], "expected": want, "observed": got}),
+                    });
+                }
+            }
+        }
+    }
+    (n, out)
+}
+
 pub fn run(tier: &str) -> i32 {
     let thorough = tier == "thorough";
     let mut report = Report::new("C19", tier);
@@ -329,6 +392,9 @@ pub fn run(tier: &str) -> i32 {
     });
     acc.comparisons += id_viol.1 as u64;
     report.violations(id_viol.0);
+    let built = core::on_big_stack(built_operands);
+    acc.comparisons += built.0;
+    report.violations(built.1);
     samples.push(|| json!({"pair": [ps[15], ps[24]], "program": format!("({} == {}, ...)", ps[15], ps[24])}));
     samples.push(|| json!({"pair": [ps[n - 1], ps[n - 5]]}));
     samples.push(|| json!({"identity_case": "c := mut 1; d := mut 1; (c == d, c != d, *c == *d)"}));
@@ -341,6 +407,7 @@ pub fn run(tier: &str) -> i32 {
         "producers": n,
         "pairs": n * n,
         "pairs_with_equal_content": equal_pairs,
+        "built_operand_comparisons (container literals with run-time components as arm values and operands x scrutinees)": built.0,
         "distinct_outcomes": outcomes.len(),
         "samples": samples.items,
         "exhaustive": true,
